@@ -390,6 +390,13 @@ class Check:
     def count(self, key, n=1):
         self.hist[key] = self.hist.get(key, 0) + n
 
+    def require(self, key_prefix, why):
+        """Declare an input class that this run MUST exercise by construction (quick and thorough tiers).  A generator that is
+        later "improved" can silently stop producing the very shape an oracle depends on (it happened: samples that no longer
+        shared a ploidy); `finish` turns that into a loud infrastructure failure instead of a check that passes blind."""
+        self.required = getattr(self, "required", [])
+        self.required.append((key_prefix, why))
+
     def case(self, canonical, nontrivial: bool, sample=None):
         self.evaluations += 1
         if nontrivial:
@@ -454,6 +461,10 @@ class Check:
         return f"replays/{self.prop}/{name}"
 
     def finish(self) -> int:
+        if self.tier != "warm":
+            for prefix, why in getattr(self, "required", []):
+                if not any(k.startswith(prefix) and v > 0 for k, v in self.hist.items()):
+                    raise Infra(f"input class '{prefix}' was not exercised by this run although the harness is built to produce it ({why})")
         wall = time.time() - self.t0
         lines = []
         for sig, k in sorted(self.known_hits.items()):
